@@ -46,6 +46,23 @@ Definition check_portion (pts : list F2) (tol : float) (closed : bool) (l0 l1 lc
   | _ => 99%Z
   end.
 
+(* the airfoil edge extraction from the two arc lengths, in both orders; a piece whose length is within rounding of the limit is
+   ambiguous *)
+Definition near_limit (c : curve VF) (frac : float) (m : res (option (curve VF))) : bool :=
+  match m with
+  | Ok (Some q) => abs (clength VF q - clength VF c * frac) <? 0x1p-30 * (1 + clength VF c)
+  | _ => false
+  end.
+Definition check_edge_sub (pts : list F2) (tol : float) (closed : bool) (la lb frac : float) (r : option (list F2)) : Z :=
+  match from_points VF true pts tol closed with
+  | Ok c =>
+      let x := cmp_opt (edge_sub VF c la lb frac) r in
+      if Z.eqb x 0 then 0%Z
+      else if near_limit c frac (between_lengths VF c la lb) || near_limit c frac (between_lengths VF c lb la) then 100%Z else x
+  | _ => 99%Z
+  end.
+Definition both (a b : Z) : Z := if (a =? 0)%Z || (a =? 100)%Z then (if (b =? 0)%Z then a else b) else a.
+
 (* a chain of portionings; each step is compared and the next one runs on the model's own piece *)
 Fixpoint check_chain_from (c : curve VF) (steps : list (float * float * option (list F2))) : Z :=
   match steps with
